@@ -116,9 +116,19 @@ func (g *jobGen) genAttempts(m *mJob) ([]mRef, []mPod) {
 				ref.Running, ref.Finish = ip(run), ip(fin)
 				ref.Status = mStatus{State: "Terminated", Result: map[string]string{"succeeded": "Succeeded", "failed": "Failed", "oom": "Failed"}[outcome]}
 				ref.Deleted = &mStatus{State: "Terminated", Result: ref.Status.Result}
-				if c.Chance(1, 3) { // the stored ref lags behind the Pod
+				switch c.Intn(6) {
+				case 0, 1: // the stored ref lags behind the Pod
 					ref.Finish, ref.Deleted = nil, nil
 					ref.Status = mStatus{State: "Running"}
+				case 2: // a kill was recorded before the Pod finished on its own
+					ref.Finish = nil
+					ref.Status = mStatus{State: "Killing"}
+					ref.Deleted = &mStatus{State: "Terminated", Result: "Killed", Reason: Pick(c, []string{"", "PendingTimeout"})}
+				case 3: // the Pod's status flapped back after it was seen finished
+					pod.Phase, pod.ContFinish = "Pending", nil
+					if c.Bool() {
+						pod.ContStart = nil
+					}
 				}
 				havePod = c.Chance(2, 3)
 			case "killing":
@@ -217,6 +227,7 @@ func runJobPure(ctx *RunCtx) *Result {
 		js := map[string]interface{}{"now": g.now, "job": m, "pods": pods, "phase": rj2.Status.Phase}
 		res.Add(term, js, fmt.Sprintf("%s|%d|%d|%s", m.Shape, len(refs), len(pods), rj2.Status.Phase), len(refs)+len(pods) > 0)
 		jobStatusMonitor(res, m, rj2, js)
+		jobMergeMonitor(res, m, pods, rj2, js)
 	}
 	return res
 }
@@ -258,7 +269,7 @@ func jobStatusMonitor(res *Result, m *mJob, rj *execution.Job, js interface{}) {
 	case st.Condition.Finished != nil:
 		want = execution.JobStateFinished
 	}
-	if st.State != want && rj.DeletionTimestamp == nil {
+	if st.State != want {
 		hit("C11", "C11/state-mismatch", fmt.Sprintf("state %s but condition implies %s", st.State, want))
 	}
 	if st.Phase.IsTerminal() != (st.Condition.Finished != nil) {
@@ -308,6 +319,43 @@ func jobStatusMonitor(res *Result, m *mJob, rj *execution.Job, js interface{}) {
 			if r.FinishTimestamp.IsZero() && rj.DeletionTimestamp == nil {
 				hit("C10", "C10/finished-with-live-task", fmt.Sprintf("finished with result %s while task %s has no finish time", f.Result, r.Name))
 			}
+		}
+	}
+}
+
+// jobMergeMonitor judges one merge of observed Pods into the recorded refs: recorded
+// tasks stay listed, recorded running/finish times are not cleared (C11, C09), and the
+// tombstone of a task whose Pod reports a finish is that last known state (C09), which is
+// what the Job's result is computed from once the Pod is gone (C10).
+func jobMergeMonitor(res *Result, m *mJob, pods []mPod, rj *execution.Job, js interface{}) {
+	hit := func(prop, sig, what string) { res.Hits = append(res.Hits, MonitorHit{prop, sig, what, js}) }
+	out := map[string]execution.TaskRef{}
+	for _, r := range rj.Status.Tasks {
+		out[r.Name] = r
+	}
+	for _, e := range m.Tasks {
+		o, ok := out[e.Name]
+		if !ok {
+			hit("C09", "C09/recorded-task-dropped", fmt.Sprintf("task %s was recorded but is no longer listed", e.Name))
+			hit("C11", "C11/created-tasks-decreased", fmt.Sprintf("task %s was recorded but is no longer listed", e.Name))
+			continue
+		}
+		if e.Running != nil && o.RunningTimestamp.IsZero() {
+			hit("C11", "C11/running-time-cleared", fmt.Sprintf("task %s: recorded running time %d was cleared", e.Name, *e.Running))
+		}
+		if e.Finish != nil && o.FinishTimestamp.IsZero() {
+			hit("C11", "C11/finish-time-cleared", fmt.Sprintf("task %s: recorded finish time %d was cleared", e.Name, *e.Finish))
+		}
+	}
+	for _, p := range pods {
+		o, ok := out[p.Name]
+		if !ok {
+			continue
+		}
+		if (p.Phase == "Succeeded" || p.Phase == "Failed") && (o.DeletedStatus == nil || o.DeletedStatus.Result != o.Status.Result || o.DeletedStatus.State != o.Status.State) {
+			what := fmt.Sprintf("task %s: Pod observed %s but the tombstone (deletedStatus) is %+v", p.Name, p.Phase, o.DeletedStatus)
+			hit("C09", "C09/tombstone-not-last-known-state", what)
+			hit("C10", "C10/tombstone-not-last-known-state", what)
 		}
 	}
 }
